@@ -214,6 +214,9 @@ type Scenario struct {
 	Target    FuncSpec   `json:"target"`
 	Inputs    []Label    `json:"inputs"`
 	NDef      int        `json:"ndef"` // the first NDef inputs are NewFunc defaults of the target
+	// AllCtor: everything the call needs (values and converters) is given to NewFunc; the call itself, and the Redefine
+	// that precedes it, have no options at all
+	AllCtor bool `json:"allCtor"`
 	Convs     []FuncSpec `json:"convs"`
 	Gens      []GenSpec  `json:"gens"`
 	HasFilter bool       `json:"hasFilter"` // redefine: FilterInput given
